@@ -327,11 +327,10 @@ class _AcceptElement(HeaderElement):
 		val = self.params.get("q", "1")
 		if isinstance(val, HeaderElement):  # pragma: no cover
 			val = val.value
-		if val:
-			val = float(val)
-			if val != val or val in (float('inf'), float('-inf')):
-				raise ValueError(val)
-			return val
+		val = float(val)
+		if val != val or val in (float('inf'), float('-inf')):
+			raise ValueError(val)
+		return val
 
 	def sanitize(self) -> None:
 		super(_AcceptElement, self).sanitize()
